@@ -65,6 +65,19 @@ pub fn run<D: Dec>(prop: &str, rep: &mut Report) {
     product.insert((format!("{:?}", d0), Ctx2::default()), vec![]);
     real_states.insert(format!("{:?}", d0));
     queue.push_back((d0, Ctx2::default(), vec![]));
+    // a decoder obtained through `Default::default()` is a decoder too: if it is not the state `new()` gives,
+    // it is explored as a second root (its transitions must follow the reference from the empty context as well)
+    let dd = guarded(D::default);
+    rep.count("default_constructed_decoder_checked", 1);
+    if let Ok(dd) = dd {
+        let key = (format!("{:?}", dd), Ctx2::default());
+        if !product.contains_key(&key) {
+            rep.notes.push(format!("Default::default() gives {:?}, which differs from new(): explored as a second start state", dd));
+            product.insert(key, vec![]);
+            real_states.insert(format!("{:?}", dd));
+            queue.push_back((dd, Ctx2::default(), vec![]));
+        }
+    }
     let mut transitions = 0u64;
     let mut capped = false;
     let mut ctx_seen: BTreeSet<Ctx2> = BTreeSet::new();
